@@ -68,3 +68,20 @@ Record rt_agrees (sy sy' : sys) (tau : expr -> expr) (pull : env -> env) : Prop 
       Forall2 (eqv (pull rho') rho') (s_bads sy) (s_bads sy') /\
       Forall2 (eqv (pull rho') rho') (s_constraints sy) (s_constraints sy')
 }.
+
+(** ** the symmetric form: two environments under which the two systems mean the same *)
+(** [rho] (for [sy]) and [rho'] (for [sy']) give positionally corresponding symbols the same value, and
+    then all positionally corresponding expressions have the same type and value (arrays: pointwise) *)
+Definition same_val (rho rho' : env) (e e' : expr) : Prop :=
+  type_of e' = type_of e /\ ebv rho' e' = ebv rho e /\ (forall i, earr rho' e' i = earr rho e i).
+
+Definition same_state (rho rho' : env) (s s' : state) : Prop :=
+  same_val rho rho' (st_sym s) (st_sym s') /\
+  opt_rel (same_val rho rho') (st_init s) (st_init s') /\ opt_rel (same_val rho rho') (st_next s) (st_next s').
+
+Definition rt_same (sy sy' : sys) (rho rho' : env) : Prop :=
+  Forall2 (same_val rho rho') (s_inputs (demote sy)) (s_inputs sy') /\
+  Forall2 (same_state rho rho') (s_states (demote sy)) (s_states sy') /\
+  Forall2 (fun o o' => same_val rho rho' (snd o) (snd o')) (s_outputs sy) (s_outputs sy') /\
+  Forall2 (same_val rho rho') (s_bads sy) (s_bads sy') /\
+  Forall2 (same_val rho rho') (s_constraints sy) (s_constraints sy').
